@@ -9,6 +9,7 @@ R3 mtbl_verify: the loop covers every data block, compares stored and computed C
    framed payload, mismatch and overrun reach a false return, OK is printed only on true, and
    the reader is first opened with verify_checksums = true (index block).
 G1 asserts are live: the build does not define NDEBUG (assert edges are NORETURN calls).
+D  rests on: C17 (an intact file verifies only if writer and verifier compute the same standard CRC-32C, whichever implementation each of them runs) - re-run here as <id>.D.<rule>.
 """
 import re
 from .common import *
@@ -196,3 +197,6 @@ def run(ctx, res):
             if failed:
                 res.check(p.ret() is not None and p.ret() != ("c", 0), "C12.R3", site(mainf, "exit-status"), "a failed file makes the exit status non-zero",
                           "mtbl_verify exits 0 although a file failed", mainf.loc(mainf.body), p.describe(mainf))
+
+    # ---- properties this one rests on (re-run here, labelled <this>.D.<rule>) ------------------
+    depends(ctx, res, 'C17', None, 'an intact file verifies only if writer and verifier compute the same standard CRC-32C, whichever implementation each of them runs')
